@@ -334,8 +334,17 @@ class MeasuredParameter(sympy.Symbol):
     """
 
     def __new__(cls, regref):
-        # sympy.Basic.__new__ wants a name, other arguments must not end up in self._args
-        return super().__new__(cls, "q" + str(regref.ind))
+        # sympy.Basic.__new__ wants a name, other arguments must not end up in self._args.
+        # The symbol is constructed without going through sympy's Symbol cache, which would hand out
+        # one shared object for the same mode index in every Program.
+        obj = sympy.Symbol.__xnew__(cls, "q" + str(regref.ind))
+        obj.regref = regref
+        return obj
+
+    def _hashable_content(self):
+        # parameters referring to different RegRef objects (i.e., to different Programs) are different
+        # symbols, otherwise sympy's expression caches substitute one for the other
+        return super()._hashable_content() + (id(self.regref),)
 
     def __init__(self, regref):
         if not regref.active:
